@@ -49,6 +49,11 @@ class History(object):
         self.timed = bool(init["timed"])
         if self.timed and real.T is None:
             real.T = np.arange(real.n, dtype=float) * 0.5 + 100.0
+        if self.timed and init.get("tzero") is not None:
+            # time axis relative to one of the poses: that pose has the stamp 0.0 exactly, earlier ones are negative
+            Tz = real.T - real.T[int(init["tzero"]) % real.n]
+            if np.all(np.diff(Tz) > 0):
+                real.T = Tz
         if init.get("share") and real.mode == "se3" and real.n >= 2:
             # a stationary stretch given as the SAME matrix object twice (as in evo's own [pose] * n test data)
             j = real.n // 2
@@ -327,7 +332,8 @@ class History(object):
     def _op_align(self, op, o, n):
         ref, P, Q = self._ref_for(op, n)
         mode = op["mode"]
-        cs, cos = {"rigid": (False, False), "similarity": (True, False), "scale": (False, True)}[mode]
+        # "scale_both" is how the command line tools request scale-only correction (correct_scale and correct_only_scale)
+        cs, cos = {"rigid": (False, False), "similarity": (True, False), "scale": (False, True), "scale_both": (True, True)}[mode]
         nn = -1 if op["n"] == -1 else 3 + int(op["n"]) % max(1, n - 2)
         try:
             r, t, s = o.align(ref, correct_scale=cs, correct_only_scale=cos, n=nn)
@@ -336,7 +342,7 @@ class History(object):
         r, t, s = np.asarray(r, dtype=float), np.asarray(t, dtype=float), float(s)
         if rm.orthonormality_defect(r) > 1e-9 or np.linalg.det(r) < 0:
             raise Mismatch("align returned an improper rotation", observed="improper", after="align")
-        if mode == "scale":
+        if mode in ("scale", "scale_both"):
             self.poses = [rm.se3(p[:3, :3], s * p[:3, 3]) for p in self.poses]
         else:
             self.poses = [rm.se3(r @ p[:3, :3], s * (r @ p[:3, 3]) + t) for p in self.poses]
@@ -448,7 +454,8 @@ def _nontrivial(case):
 
 st_T = st.fixed_dictionaries({"rot": gen.st_rotation, "t": st.lists(gen.unit_f, min_size=3, max_size=3),
                               "mag": st.one_of(gen.log_uniform(-2, 3), st.just(0.0))})
-st_s = st.one_of(gen.log_uniform(-2, 2), st.sampled_from([1.0, 2.0, 0.5]))
+# incl. similarities that are only just not rigid (scale a few 1e-5..1e-4 beside 1: clearly outside evo's 1e-6 SE(3) tolerance)
+st_s = st.one_of(gen.log_uniform(-2, 2), st.sampled_from([1.0, 2.0, 0.5]), st.sampled_from([1.0002, 0.9998, 1.00003, 0.99995]))
 OPS = {
     "tl": st.fixed_dictionaries({"op": st.just("tl"), "T": st_T}),
     "tr": st.fixed_dictionaries({"op": st.just("tr"), "T": st_T}),
@@ -461,7 +468,7 @@ OPS = {
     "mf": st.fixed_dictionaries({"op": st.just("mf"), "d": st.one_of(st.just(0.0), gen.log_uniform(-2, 3)), "a": gen.fl(0.0, 3.2), "deg": st.booleans()}),
     "crop": st.fixed_dictionaries({"op": st.just("crop"), "i": st.integers(0, 30), "j": st.integers(0, 30), "lo_out": st.booleans(),
                                    "hi_out": st.booleans(), "lo_none": st.booleans(), "hi_none": st.booleans()}),
-    "align": st.fixed_dictionaries({"op": st.just("align"), "seed": st.integers(0, 2 ** 32), "mode": st.sampled_from(["rigid", "similarity", "scale"]),
+    "align": st.fixed_dictionaries({"op": st.just("align"), "seed": st.integers(0, 2 ** 32), "mode": st.sampled_from(["rigid", "similarity", "scale", "scale_both"]),
                                     "n": st.one_of(st.just(-1), st.integers(0, 10))}),
     "origin": st.fixed_dictionaries({"op": st.just("origin"), "seed": st.integers(0, 2 ** 32)}),
     "project": st.fixed_dictionaries({"op": st.just("project"), "plane": st.sampled_from(["xy", "xz", "yz"])}),
@@ -473,7 +480,8 @@ for _r in READS:
 st_init = st.integers(1, 12).flatmap(lambda n: st.fixed_dictionaries({
     "traj": trajgen.st_traj(n, stamps=True, exp_lo=-2, exp_hi=4), "timed": st.booleans(), "share": st.sampled_from([False, False, True]),
     "qscale": st.one_of(st.none(), st.none(), st.lists(st.sampled_from([0.0, 4e-6, -4e-6, 9e-6, 2e-7]), min_size=1, max_size=4)),
-    "pre": st.lists(st.sampled_from(trajgen.VIEWS), max_size=2, unique=True)}))
+    "pre": st.lists(st.sampled_from(trajgen.VIEWS), max_size=2, unique=True),
+    "tzero": st.one_of(st.none(), st.none(), st.integers(0, 11))}))
 st_init_bulk = st.fixed_dictionaries({"bulk": st.fixed_dictionaries({"n": st.just(200), "seed": st.integers(0, 2 ** 32), "mode": st.sampled_from(["pq", "se3"])}),
                                       "timed": st.booleans(), "pre": st.lists(st.sampled_from(trajgen.VIEWS), max_size=1)})
 
@@ -565,16 +573,16 @@ for _name, _strat in OPS.items():
 _T1 = {"rot": {"axis": [0.0, 0.0, 1.0], "theta": 0.7}, "t": [1.0, -0.5, 0.25], "mag": 2.0}
 _T2 = {"rot": {"q": [0.5, -0.5, 0.5, 0.5]}, "t": [0.0, 1.0, 0.0], "mag": 10.0}
 ALPHABET = [
-    {"op": "tl", "T": _T1}, {"op": "tr", "T": _T2}, {"op": "trp", "T": _T1}, {"op": "trp", "T": dict(_T1, mag=0.0)}, {"op": "sim3r", "T": _T2, "s": 2.5}, {"op": "sim3", "T": _T2, "s": 2.5}, {"op": "scale", "s": 0.5},
+    {"op": "tl", "T": _T1}, {"op": "tr", "T": _T2}, {"op": "trp", "T": _T1}, {"op": "trp", "T": dict(_T1, mag=0.0)}, {"op": "sim3r", "T": _T2, "s": 2.5}, {"op": "sim3", "T": _T2, "s": 2.5}, {"op": "sim3", "T": _T1, "s": 1.0002}, {"op": "scale", "s": 0.5},
     {"op": "ids", "ids": [0, 2], "as_array": False}, {"op": "down", "n": 2}, {"op": "mf", "d": 1.0, "a": 0.5, "deg": False},
     {"op": "crop", "i": 1, "j": 2, "lo_out": False, "hi_out": True, "lo_none": False, "hi_none": False},
-    {"op": "align", "seed": 7, "mode": "similarity", "n": -1}, {"op": "origin", "seed": 9}, {"op": "project", "plane": "xy"},
+    {"op": "align", "seed": 7, "mode": "similarity", "n": -1}, {"op": "align", "seed": 8, "mode": "scale_both", "n": -1}, {"op": "origin", "seed": 9}, {"op": "project", "plane": "xy"},
     {"op": "copy"}, {"op": "r_pos"}, {"op": "r_quat"}, {"op": "r_se3"}, {"op": "r_check"}, {"op": "r_len"}, {"op": "r_dist"}, {"op": "r_speed"},
     {"op": "r_info"},
 ]
 _ENUM_TRAJ = {"n": 3, "pos": {"pts": [[0.1, 0.2, 0.3], [0.9, -0.4, 0.5], [-0.7, 0.8, -0.2]], "mag": 10.0, "off": 0},
               "rots": [{"q": [0.9, 0.1, -0.3, 0.2]}, {"axis": [0.0, 1.0, 0.0], "theta": 2.0}, {"quarter": [1, 0, 2]}],
-              "stamps": {"t0": 1.0, "dts": [0.5, 1.5]}}
+              "stamps": {"t0": -0.5, "dts": [0.5, 1.5]}}
 
 
 def enum_cases(tier):
